@@ -38,6 +38,8 @@ def cases(rng, tier):
         out.append(S.scenario_case(spec, 'single-fault-grid'))
     for _ in range(400 if tier == 'thorough' else 60):
         out.append(S.scenario_case(S.gen_request_tail(rng), 'request-tail'))
+    for _ in range(300 if tier == 'thorough' else 40):
+        out.append(S.scenario_case(S.gen_concurrent(rng), 'concurrent'))
     # two faults over every pair of frames of a short segmented transfer (seeded slice in quick)
     nodes = S.two_nodes(know=False, retries=1, apduTimeout=1000, segTimeout=500)
     req = {'t': 0, 'src': 1, 'dst': 2, 'len': 70, 'service': 12, 'resp': ['complex', 70], 'resp_delay': 0}
@@ -50,7 +52,7 @@ def cases(rng, tier):
                 out.append(S.scenario_case({'nodes': nodes, 'requests': [req], 'faults': {i: list(S.FAULT_KINDS[ka]), j: list(S.FAULT_KINDS[kb])}},
                                            'two-fault-grid'))
     for _ in range(1500 if tier == 'thorough' else 250):
-        ops, n = I.gen_history(rng)
+        ops, n = I.gen_history(rng) if rng.random() < 0.75 else I.gen_queue_abort(rng)
         exp, det = I.run_history(ops, n)
         out.append(Case('iocb-history', 'Iocb.run_ops %d %s' % (n, I.coq_ops(ops).replace('OSubmit', 'Iocb.OSubmit').replace('OConfirm', 'Iocb.OConfirm').replace('OAbort', 'Iocb.OAbort').replace('ORun', 'Iocb.ORun')),
                         exp, key=('iocb', repr(ops)), nontrivial=any(o[0] == 'submit' for o in ops), desc={'ops': ops, 'n': n}))
@@ -86,7 +88,7 @@ def direct(rng, tier, focus=()):
         failures.extend(fs)
     nh = 0
     for _ in range(20000 if big else 1500):
-        ops, n = I.gen_history(rng)
+        ops, n = I.gen_history(rng) if rng.random() < 0.75 else I.gen_queue_abort(rng)
         fs, det = I.check_drained(ops, n)
         nh += 1
         failures.extend(fs)
@@ -94,7 +96,7 @@ def direct(rng, tier, focus=()):
     for e in _core.load_findings('C04'):
         ops = ((e.get('replay') or {}).get('failure') or {}).get('ops')
         if e.get('status') == 'known' and ops:
-            fs, det = I.check_drained(ops, 1 + max(o[1] for o in ops if o[0] == 'submit'))
+            fs, det = I.check_drained(ops, 1 + max([o[1] for o in ops if o[0] == 'submit'] + [o[4][0] for o in ops if o[0] == 'submit' and len(o) > 4 and o[4]]))
             failures.extend(fs)
     stats['evaluations'] += nh
     stats['iocb_histories'] = nh
@@ -114,7 +116,7 @@ def classify(f):
     if k == 'exception' and f.get('class') == 'RuntimeError' and f.get('where') in ('rx', 'timer'):
         if str(f.get('msg', '')).startswith('invalid segment number'):
             return 'C04-K2'
-    if k == 'iocb-answer-for-other-request' and f.get('client_aborts'):
+    if k == 'iocb-answer-for-other-request' and f.get('active_request_aborted_to_this_peer'):
         # known: after a client-side abort of the active IOCB the next one is started while the aborted request's
         # transaction is still open below; its late answer is matched by address only
         return 'C04-K4'
